@@ -189,6 +189,29 @@ CLAIMS = {
             "DESIGN.md §4 C20"),
 }
 
+EXTRA = {
+    "C01": 'Also: earlier calls with the same rates and another duration / accumulator in the same case (nothing may be remembered between calls).',
+    "C02": 'Also: earlier calls with the same rates and another duration / accumulator in the same case.',
+    "C03": 'Also: every call under a drawn ambient mpmath precision (15 digits by default - what a fresh interpreter has).',
+    "C04": 'Also: every method warmed by one successful call before the fault, close() raising during disconnect, a witness on record_error (an error reported and later wiped), and 40 further failures after the latch.',
+    "C05": 'Also: characters that mean something to string formatting (%, {}, $) in request text and replies.',
+    "C06": 'Also: sequences of helper calls on one port / one object (repeated values, motors_enable included), delayed acknowledgements, and a validity predicate (not a fixed split) for pause chunks.',
+    "C07": 'Also: data lines that are blank or begin with OK, requests longer than 64 bytes, an error reply followed by a link failure in the same exchange, and what query returns when the link raises after the data line was read.',
+    "C08": 'Also: a second call with equal coordinates after the caller edited the returned segment in place, and tuple points. Acceptance is demanded only for rectangles at least 2 tol thick.',
+    "C09": 'Also: lists of 60..200 vertices, loops that miss closure by float noise, power-of-two rescaling, strokes 1e5..1e9 tolerances long (conditioning-aware tie band), drawings translated 1e3..1e8 extents from the origin, tuple vertices.',
+    "C10": "Also: tight hooks, flatness as a fraction of a piece's control-point distance, scales down to 1e-9, gently bowed strokes up to 1e9 flatnesses long, a loop whose midpoint is its own end node, paths translated up to 2^30 of their scale, tuple points.",
+    "C11": 'Also: aspect ratios that differ by 1e-7..1e-3, and both sizes of one axis non-positive at once.',
+    "C12": 'Also: digit-like characters that float() rejects among the malformed texts.',
+    "C13": 'Also: a second index of another size built and used while the first is alive; tuple vertices.',
+    "C14": "Also: geometric spirals 30..57 levels deep, geometric rows straddling a split line (F11, a second defect found and repaired), coordinates at the edge of the float range, None / 0 / '' as identifiers, every query asked of an index so far kept in the failing case.",
+    "C15": 'Also: retried connect after a refusal, a prior good session on the same object, board swaps under one device name, the input-buffer flush raising.',
+    "C16": 'Also: nicknames that differ only in case or contain Err.. / OK.. / % / {}; the same int32 value rewritten at overlapping slots.',
+    "C17": 'Also: the same profile asked for other durations in a row, and the constructed coincidence r_T = -r_1.',
+    "C18": 'Also: integers beyond 2^53 and the same bounds list updated in place between two calls.',
+    "C19": "Also: an EBB3 object that scanned another list before, one-shot enumerators, foreign devices whose description starts like a board's name.",
+    "C20": 'Also: U+FEFF / U+FDD0 and other single legal code points via the exhaustive atom grid and the fuzz stage; every quarter second up to 7300 s.',
+}
+
 NOT_YET = "check not built yet in this session (planned in DESIGN.md §4); not claimed until it runs green"
 
 
@@ -207,7 +230,11 @@ def main():
                 "evidence_file": "evidence/%s.json" % pid,
                 "replay_cmd_template": "./check %s --replay {path}" % pid,
                 "engine": "pbt-runner",
-                "level_claimed": {"category": "exploration", "text": text, "design_ref": ref},
+                "level_claimed": {"category": "exploration",
+                                  "text": text + (" " + EXTRA[pid] if pid in EXTRA else "")
+                                  + " Checked against 160 seeded regressions and 80 benign rewrites (DESIGN.md "
+                                    "sections 10-11).",
+                                  "design_ref": ref + ", §9-§11"},
                 "level_note": note,
                 "technique": technique,
             })
